@@ -743,6 +743,7 @@ def run(prog: Program, rep: Report, tier: str):
 
     _entry, _parser, _ = _c14.parse_function(prog)
     _c14.text_shortcuts(prog, rep, _entry, _parser, "R04.13")
+    _c14.long_integers_exact(prog, rep, "R04.13")
     rep.rule("R04.12", "durations are read back exactly: signed text taken apart, no float rebuild", floor=2)
     r04_12(prog, rep, urows, pe)
     r04_5(prog, rep, pe, urows)
